@@ -341,8 +341,18 @@ func (sel *Selection) beginEdit(r NodeRequest, bubble bool) error {
 	if err := sel.Browser.Triggers.beginEdit(r); err != nil {
 		return err
 	}
+	editRoot := r.EditRoot
 	for {
 		if err := r.Selection.Node.BeginEdit(r); err != nil {
+			// nodes already told the edit began must be told it ended
+			failed := r.Selection
+			r.Selection = sel
+			r.EditRoot = editRoot
+			for r.Selection != failed {
+				r.Selection.Node.EndEdit(r)
+				r.Selection = r.Selection.parent
+				r.EditRoot = false
+			}
 			return err
 		}
 		if r.Selection.parent == nil || !bubble {
@@ -356,15 +366,20 @@ func (sel *Selection) beginEdit(r NodeRequest, bubble bool) error {
 
 func (sel *Selection) endEdit(r NodeRequest, bubble bool) error {
 	r.Selection = sel
+	// every node told the edit began is told it ended, first error wins
+	var firstErr error
 	for {
-		if err := r.Selection.Node.EndEdit(r); err != nil {
-			return err
+		if err := r.Selection.Node.EndEdit(r); err != nil && firstErr == nil {
+			firstErr = err
 		}
 		if r.Selection.parent == nil || !bubble {
 			break
 		}
 		r.Selection = r.Selection.parent
 		r.EditRoot = false
+	}
+	if firstErr != nil {
+		return firstErr
 	}
 	if err := sel.Browser.Triggers.endEdit(r); err != nil {
 		return err
